@@ -160,7 +160,7 @@ func VerifHarness_OnlineModeAdmission() {
 			logins++
 			h.HandlePacket(&proto.PacketContext{Packet: &packet.ServerLogin{Username: name}, Payload: []byte{0}})
 		case 1:
-			token := zz.Bytes(4)
+			token := zz.Bytes(zz.Choose(5)) // also shorter than issued, also empty
 			secret := zz.Bytes(2)
 			sentSecret = secret
 			if encResponses > 0 || zzEncryptionRequests(conn) == 0 {
